@@ -1,15 +1,17 @@
-\* C01 thorough: longer series, all psi 4-tuples with entries <= 3, euclidean inner distance, max_length_diff
+\* C01 thorough (1): LONGER series (lengths <= 4), all psi 4-tuples with entries <= 2, all windows, penalty;
+\* the option-rich slice (max_step, max_length_diff, three inner distances) is c01t2 with lengths <= 3.
+\* 0.54 M cases; each one enumerates the admissible paths of every cell
 SPECIFICATION Spec
 CONSTANTS
   MaxLen = 4
   Vals = {0, 2}
-  Inners = {"sq", "eu"}
+  Inners = {"sq"}
   Windows = {0, 1, 2, 3}
   Pens = {0, 1}
-  MaxSteps = {0, 1}
+  MaxSteps = {0}
   MaxDists = {0}
-  MLDs = {99, 1}
-  PsiMax = 3
+  MLDs = {99}
+  PsiMax = 2
   TinyLen = 5
 INVARIANT CellwiseOptimal
 INVARIANT DistanceOptimal
